@@ -159,3 +159,21 @@ pub fn debug_profiling_call_matches(prefix: &crate::nodes::Prefix) -> bool {
     std::mem::forget(tracker);
     result
 }
+
+// ---------------------------------------------------------------------------------------------
+// append_text_comment
+
+/// Shift requested from `ShiftTokenLine` (`isize::MIN`: the rule was not run).
+pub static mut RECORDED_SHIFT: isize = isize::MIN;
+
+/// Stub body for `<ShiftTokenLine as FlawlessRule>::flawless_process`: records the amount.
+#[allow(private_interfaces)]
+pub fn shift_token_line_stub(
+    rule: &crate::rules::ShiftTokenLine,
+    _block: &mut crate::nodes::Block,
+    _context: &crate::rules::Context,
+) {
+    unsafe {
+        RECORDED_SHIFT = rule.verif_shift_amount();
+    }
+}
